@@ -6,7 +6,7 @@ use std::path::{Path, PathBuf};
 use proptest::strategy::{Strategy, ValueTree};
 use proptest::test_runner::{Config, RngSeed, TestRunner};
 
-use model::gen::{callback_defs, lexing_defs};
+use model::gen::{callback_defs, lexing_defs, subpattern_defs};
 use model::prep::prepare;
 use model::set::{render_module, stress_defs, SubjectDef, SubjectSet};
 
@@ -95,6 +95,25 @@ fn main() {
         }
         total_states += 3 * p.graph.states.len();
         defs.push(SubjectDef { family: "callbacks".into(), def, skip_log: false, has_value, error_cb });
+        got += 1;
+    }
+    // subpattern family (C11 on compiled lexers, C12 twins of definitions with subpatterns)
+    let n_sub = if from_replay.is_some() { 0 } else { (n_core / 5).max(6) };
+    let sstrat = subpattern_defs();
+    got = 0;
+    tries = 0;
+    while got < n_sub && tries < n_sub * 40 {
+        tries += 1;
+        let case = sstrat.new_tree(&mut runner).unwrap().current();
+        if case.must_reject {
+            continue;
+        }
+        let Ok(p) = prepare(&case.def) else { continue };
+        if p.graph.states.len() > 400 {
+            continue;
+        }
+        total_states += p.graph.states.len();
+        defs.push(SubjectDef { family: "sub".into(), def: case.def, skip_log: false, has_value: vec![], error_cb: false });
         got += 1;
     }
     if from_replay.is_none() {
